@@ -199,6 +199,15 @@ Definition stable_sort (key : id -> nat) (l : list id) : list id := fold_right (
 Definition py_sort (key : id -> nat) (reverse : bool) (l : list id) : list id :=
   if reverse then rev (stable_sort key (rev l)) else stable_sort key l.
 
+(* sort keys: a table node -> key; None stands for a key that cannot be compared (Python: None next to ints).
+   list.sort compares every element of a list of two or more with some other element, so it raises TypeError
+   iff such a key is present; BaseNode.sort sorts a copy and rebinds, so the children stay as they were *)
+Definition key_of (keys : list (option nat)) (x : id) : nat :=
+  match nth x keys (Some 0) with Some k => k | None => 0 end.
+Definition sort_raises (keys : list (option nat)) (l : list id) : bool :=
+  Nat.leb 2 (length l)
+  && existsb (fun x => match nth x keys (Some 0) with None => true | Some _ => false end) l.
+
 (* ------------------------------------------------------------------------------------------ *)
 (* operations *)
 
@@ -211,7 +220,7 @@ Inductive op :=
 | RShift (p : id) (c : id) (ft : fault)               (* p >> c                               *)
 | LShift (c : id) (p : id) (ft : fault)               (* c << p                               *)
 | DelItem (p : id) (nm : str) (ft : fault)            (* del p[nm]   (Node only)              *)
-| Sort (p : id) (keys : list nat) (reverse : bool)    (* p.sort(key=table, reverse=...)       *)
+| Sort (p : id) (keys : list (option nat)) (reverse : bool)   (* p.sort(key=table, reverse=...); a None key is incomparable *)
 | SetSep (n : id) (v : str).                          (* n.sep = v   (Node only)              *)
 
 Fixpoint extend_loop (cfg : config) (s : forest) (p : id) (cs : list id) (fts : list fault)
@@ -266,7 +275,8 @@ Definition step (cfg : config) (s : forest) (o : op) : forest * outcome :=
       | _ => (s, Err SearchError)
       end
   | Sort p keys rev =>
-      (set_kids s p (py_sort (fun x => nth x keys 0) rev (kids s p)), Ok)
+      if sort_raises keys (kids s p) then (s, Err TypeError)
+      else (set_kids s p (py_sort (key_of keys) rev (kids s p)), Ok)
   | SetSep n v =>
       if negb (is_node cfg) then (s, Err Unmodelled) else (set_sep s (root s n) v, Ok)
   end.
